@@ -27,9 +27,10 @@ func init() {
 
 	register(&Property{
 		ID: "C01", Title: "Subscribed resources converge to the state announced by the service",
-		Explanation: "Decides structural necessary conditions of convergence, on every path and for every schedule: (1) in the cache, content, version and the event's update flag change together, and an initial load stores content, version 0 and the loaded state only under the not-loaded test of that same entry (PAIR/version-bump); every event is stamped with the pre-update version, applied by its handler, fanned out inside the unlock window and dropped only by the listed discards (CONF/handle-event); (2) cache content and version are written only by cache tasks under the entry's mutex and read under it (CTX/guarded-by); (3) the subscriber applies an event only when it targets its version and advances by one per update (DOM/version-filter); (4) events are processed only with the event gate known open, discarded before load, and reaccess dispatched first (DOM/event-gate); (5) queues are updated in order-preserving forms (FIFO); (6) all mutable subscription state is touched on the connection worker only (CTX/conn); (7) a resource made sendable again must carry a current snapshot (PAIR/snapshot-current: known finding F13); cached model and collection values are never written in place: every container write in the repository is traced to its origin and none originates from Collection.Values / Model.Values (DOM/copy-on-write); a fanned-out ResourceEvent is read-only, no field of it — also one added later — is stored by subscriber-side code (WHO/event-immutable). Not decided: end-to-end equality of the client copy with the service state, Value.Equal, the reset diff (C12), the collector (C02), JSON encodings, legacy-encoding selection. Added after seeding round 7: an entry handed out for subscribing has its messaging-system event subscription on every path (PAIR/cache-count) — without it no event arrives and nothing converges; the cached encodings Model.data/Collection.data are read only by MarshalJSON (WHO/state readers). Added after seeding round 8: a removed cache entry is cleared from every index, the base pointer included (DOM/unregister). Added after seeding round 9: events held back for a resource are let through only after the frame that delivers it (PAIR/rpc-resources). Added after seeding round 10: no test of a field contradicts a store of the same object that dominates it (CONTRA/stale-test). Added after seeding round 11: a run of adds derived from a re-fetch or query answer by one ascending loop moves its index along, so the run does not arrive reversed (TABLE/add-run). Added after seeding round 12: a release with the collect flag set reaches the collector on every path (DOM/gc-after-release); the pass of the reset model diff that marks missing keys deleted runs for every re-fetched model (DOM/diff-unconditional); a resource event is applied to the resource it names (DOM/event-target). Added after the mutation sweep: the encoding a client gets follows its negotiated protocol version in one way at every site — `version < 1.2.1` selects the legacy encoders, which are used nowhere else; the 1.2.0 marshalers convert exactly when a value is a soft reference or a data value (TABLE/legacy-select). This was the clause 'legacy-encoding selection' listed as not decided until round 12.",
+		Explanation: "Decides structural necessary conditions of convergence, on every path and for every schedule: (1) in the cache, content, version and the event's update flag change together, and an initial load stores content, version 0 and the loaded state only under the not-loaded test of that same entry (PAIR/version-bump); every event is stamped with the pre-update version, applied by its handler, fanned out inside the unlock window and dropped only by the listed discards (CONF/handle-event); (2) cache content and version are written only by cache tasks under the entry's mutex and read under it (CTX/guarded-by); (3) the subscriber applies an event only when it targets its version and advances by one per update (DOM/version-filter); (4) events are processed only with the event gate known open, discarded before load, and reaccess dispatched first (DOM/event-gate); (5) queues are updated in order-preserving forms (FIFO); (6) all mutable subscription state is touched on the connection worker only (CTX/conn); (7) a resource made sendable again must carry a current snapshot (PAIR/snapshot-current: known finding F13); cached model and collection values are never written in place: every container write in the repository is traced to its origin and none originates from Collection.Values / Model.Values (DOM/copy-on-write); a fanned-out ResourceEvent is read-only, no field of it — also one added later — is stored by subscriber-side code (WHO/event-immutable). Not decided: end-to-end equality of the client copy with the service state, Value.Equal, the reset diff (C12), the collector (C02), JSON encodings, legacy-encoding selection. Added after seeding round 7: an entry handed out for subscribing has its messaging-system event subscription on every path (PAIR/cache-count) — without it no event arrives and nothing converges; the cached encodings Model.data/Collection.data are read only by MarshalJSON (WHO/state readers). Added after seeding round 8: a removed cache entry is cleared from every index, the base pointer included (DOM/unregister). Added after seeding round 9: events held back for a resource are let through only after the frame that delivers it (PAIR/rpc-resources). Added after seeding round 10: no test of a field contradicts a store of the same object that dominates it (CONTRA/stale-test). Added after seeding round 11: a run of adds derived from a re-fetch or query answer by one ascending loop moves its index along, so the run does not arrive reversed (TABLE/add-run). Added after seeding round 12: a release with the collect flag set reaches the collector on every path (DOM/gc-after-release); the pass of the reset model diff that marks missing keys deleted runs for every re-fetched model (DOM/diff-unconditional); a resource event is applied to the resource it names (DOM/event-target). Added after the mutation sweep: the encoding a client gets follows its negotiated protocol version in one way at every site — `version < 1.2.1` selects the legacy encoders, which are used nowhere else; the 1.2.0 marshalers convert exactly when a value is a soft reference or a data value (TABLE/legacy-select). This was the clause 'legacy-encoding selection' listed as not decided until round 12. Added after the mutation sweep: DOM/gc-unsend (see C02).",
 		Assumptions: append([]string{"at most one cache worker runs a resource queue at a time (FIFO/CHAN rules) and one output worker per connection (CTX/conn)"}, baseAssumptions...),
 		Rules: []Rule{
+			{Name: "DOM/gc-unsend", Min: 2, Run: ruleGCUnsend, Doc: "the collector un-sends a kept node exactly when the root was sent and no sent reference to the node remains"},
 			{Name: "TABLE/legacy-select", Min: 8, Run: ruleLegacySelect, Doc: "clients below protocol 1.2.1 get the legacy encoding, 1.2.1 and later the current one — everywhere the version is consulted; 1.2.0 marshalers convert exactly for soft references and data values"},
 			{Name: "DOM/event-target", Min: 1, Run: ruleEventTarget, Doc: "a resource event is applied to the resource it names"},
 			{Name: "DOM/diff-unconditional", Min: 1, Run: ruleDiffUnconditional, Doc: "every cached key missing from a re-fetched model is marked deleted"},
@@ -66,9 +67,11 @@ func init() {
 
 	register(&Property{
 		ID: "C02", Title: "Every message is applicable: no dangling references or stray events",
-		Explanation: "Decides: the typestate table of Subscription.state (who may move a subscription into which state); populate → hand the frame over → release on every path (PAIR/rpc-resources); the shapes the collector relies on: ReleaseRPCResources marks sent, descends into every reference and then opens the loading gate; populateResources* count an edge once, skip sent resources and mark ToSend before descending; removeCount's counter effects follow its direct/sent/tryDelete arguments; every disposed subscription leaves the connection's table (DOM/ref-shapes); references are released with the parent's sent-ness as it was while the edge was counted (PROV/sent-flag: known finding F6); the sent-count is raised once per created edge (PAIR/edge-sent-once: known finding F8); a re-sendable resource has a current snapshot and a closed gate (PAIR/snapshot-current: known finding F13); no change on a collection, no add/remove on a model, decoded indexes inside [0,len] (DOM/index-kind-guard); no event before the hand-over (DOM/event-gate); recursion census. NOT decided — and this is the core of the property: correctness of the two-pass reference-count collector tryDelete/Unsend and of the indirectsent arithmetic on arbitrary reference graphs. Added after seeding round 7: the encoding cached for the latest protocol is read by MarshalJSON only, so a legacy connection is never handed bytes in the wrong dialect (WHO/encoding-cache). Added after seeding round 8: collection snapshots held by still-loading subscriptions are never written in place (DOM/copy-on-write). Added after seeding round 9: marshalers put text into a frame only through json.Marshal, so every frame is well-formed (PROV/json-text). Added after seeding round 10: CONTRA/stale-test (see C01) for the collector's sent-count bookkeeping. Added after seeding round 11: the unsubscribe event releases every direct subscription (DOM/revoke), so no later event targets a resource the client dropped. Added after seeding round 12: the already-handed-over quick exit of populateResources* is taken for exactly the states to-send and sent, by constant propagation over the seven states (TABLE/populate-skip); a release with the collect flag set reaches the collector on every path (DOM/gc-after-release). Added after the mutation sweep: the continuation of an add/change event that waited for referenced resources sends only under state != disposed, tested after the wait (DOM/ready-continuation-live); a map member created on demand is written only where it exists (DOM/map-made). Added after seeding round 13: the count-down in Unsend depends on the child being sent and counted only (DOM/unsend-countdown). DOM/queue-flag-whole: see C06.",
+		Explanation: "Decides: the typestate table of Subscription.state (who may move a subscription into which state); populate → hand the frame over → release on every path (PAIR/rpc-resources); the shapes the collector relies on: ReleaseRPCResources marks sent, descends into every reference and then opens the loading gate; populateResources* count an edge once, skip sent resources and mark ToSend before descending; removeCount's counter effects follow its direct/sent/tryDelete arguments; every disposed subscription leaves the connection's table (DOM/ref-shapes); references are released with the parent's sent-ness as it was while the edge was counted (PROV/sent-flag: known finding F6); the sent-count is raised once per created edge (PAIR/edge-sent-once: known finding F8); a re-sendable resource has a current snapshot and a closed gate (PAIR/snapshot-current: known finding F13); no change on a collection, no add/remove on a model, decoded indexes inside [0,len] (DOM/index-kind-guard); no event before the hand-over (DOM/event-gate); recursion census. NOT decided — and this is the core of the property: correctness of the two-pass reference-count collector tryDelete/Unsend and of the indirectsent arithmetic on arbitrary reference graphs. Added after seeding round 7: the encoding cached for the latest protocol is read by MarshalJSON only, so a legacy connection is never handed bytes in the wrong dialect (WHO/encoding-cache). Added after seeding round 8: collection snapshots held by still-loading subscriptions are never written in place (DOM/copy-on-write). Added after seeding round 9: marshalers put text into a frame only through json.Marshal, so every frame is well-formed (PROV/json-text). Added after seeding round 10: CONTRA/stale-test (see C01) for the collector's sent-count bookkeeping. Added after seeding round 11: the unsubscribe event releases every direct subscription (DOM/revoke), so no later event targets a resource the client dropped. Added after seeding round 12: the already-handed-over quick exit of populateResources* is taken for exactly the states to-send and sent, by constant propagation over the seven states (TABLE/populate-skip); a release with the collect flag set reaches the collector on every path (DOM/gc-after-release). Added after the mutation sweep: the continuation of an add/change event that waited for referenced resources sends only under state != disposed, tested after the wait (DOM/ready-continuation-live); a map member created on demand is written only where it exists (DOM/map-made). Added after seeding round 13: the count-down in Unsend depends on the child being sent and counted only (DOM/unsend-countdown). DOM/queue-flag-whole: see C06. Added after the mutation sweep: the legacy twin of populateResources agrees with it on every abstract path — decisions and effects — apart from the encoding (TWIN/agree); the suite runs the legacy twin only a few times. Added after the mutation sweep: the sent-ness decisions of the collector (DOM/gc-unsend).",
 		Assumptions: baseAssumptions,
 		Rules: []Rule{
+			{Name: "DOM/gc-unsend", Min: 2, Run: ruleGCUnsend, Doc: "the collector un-sends a kept node exactly when the root was sent and no sent reference to the node remains; the mark phase starts only for a root that goes or is un-sent"},
+			{Name: "TWIN/agree", Min: 0, Run: ruleTwinAgree, Doc: "populateResources and its legacy twin take the same decisions and have the same effects on every path, apart from the encoding they place"},
 			{Name: "DOM/queue-flag-whole", Min: 5, Run: ruleQueueFlagWhole, Doc: "every decision on the hold-back reasons of a subscription (queueFlag) compares the whole set with zero"},
 			{Name: "DOM/unsend-countdown", Min: 2, Run: ruleUnsendCountdown, Doc: "un-sending counts each child's sent references down whenever the child is sent and counted, whatever else holds it"},
 			{Name: "REC/gc-terminates", Min: 3, Run: ruleGCTerminates, Doc: "the collector revisits a node marked for deletion only to upgrade it to kept, and stops at kept nodes"},
@@ -107,9 +110,10 @@ func init() {
 
 	register(&Property{
 		ID: "C03", Title: "Per-resource event delivery is ordered, gap-free and duplicate-free",
-		Explanation: "Decides: the five queues are updated only in order-preserving forms, including the re-queue of not-yet-processed events before newer ones (FIFO/queues); a worker is woken only on the empty→non-empty transition of a resource queue and never while locks are set (DOM/inch-send), so one worker at a time runs a queue; handleEvent stamps, applies and fans out inside one unlock window with no go statement (CONF/handle-event); Subscriber.Event only enqueues and the continuation of every handler runs on the connection worker (CTX/conn); an applied update advances cache and subscriber versions by exactly one and a stamped event is applied only at its version, hence at most once (PAIR/version-bump, DOM/version-filter); nothing is processed before the hand-over or while the gate is closed, with the in-loop re-test (DOM/event-gate); the bookkeeping of a callback slot (in-flight flag, cached verdict, the slot itself) is finished before the slot's continuations run, so a re-access started from inside a callback is not lost (DOM/drain-reentrancy). Not decided: the capacity countdown of the lock list, delivery by the socket, the 'equivalent derived sequence' exception (C12). Added after seeding round 7: the held-back events of a frame's resources are let through only after the frame that first hands the resources over (PAIR/rpc-resources). Added after seeding round 8: in the edit-script back-tracking, branches that compare the same two LCS-table cells cover every ordering, so the derived sequence is not cut short on a tie (TABLE/lcs-exhaustive; decides the present formulation of the algorithm only). Added after seeding round 9: a query event takes one event lock per query request and each is released once, so later events do not overtake pending answers (PAIR/query-lock). Added after seeding round 10: message handlers take messages in synchronously, in arrival order (FIFO/handler-sync); the loading gate of an already sent resource is not opened again (DOM/ref-shapes). Added after seeding round 11: TABLE/add-run (see C01).",
+		Explanation: "Decides: the five queues are updated only in order-preserving forms, including the re-queue of not-yet-processed events before newer ones (FIFO/queues); a worker is woken only on the empty→non-empty transition of a resource queue and never while locks are set (DOM/inch-send), so one worker at a time runs a queue; handleEvent stamps, applies and fans out inside one unlock window with no go statement (CONF/handle-event); Subscriber.Event only enqueues and the continuation of every handler runs on the connection worker (CTX/conn); an applied update advances cache and subscriber versions by exactly one and a stamped event is applied only at its version, hence at most once (PAIR/version-bump, DOM/version-filter); nothing is processed before the hand-over or while the gate is closed, with the in-loop re-test (DOM/event-gate); the bookkeeping of a callback slot (in-flight flag, cached verdict, the slot itself) is finished before the slot's continuations run, so a re-access started from inside a callback is not lost (DOM/drain-reentrancy). Not decided: the capacity countdown of the lock list, delivery by the socket, the 'equivalent derived sequence' exception (C12). Added after seeding round 7: the held-back events of a frame's resources are let through only after the frame that first hands the resources over (PAIR/rpc-resources). Added after seeding round 8: in the edit-script back-tracking, branches that compare the same two LCS-table cells cover every ordering, so the derived sequence is not cut short on a tie (TABLE/lcs-exhaustive; decides the present formulation of the algorithm only). Added after seeding round 9: a query event takes one event lock per query request and each is released once, so later events do not overtake pending answers (PAIR/query-lock). Added after seeding round 10: message handlers take messages in synchronously, in arrival order (FIFO/handler-sync); the loading gate of an already sent resource is not opened again (DOM/ref-shapes). Added after seeding round 11: TABLE/add-run (see C01). Added after the mutation sweep: every early return of unqueueEvents lies on the true edge of queueFlag != 0 (DOM/queue-flag-whole).",
 		Assumptions: baseAssumptions,
 		Rules: []Rule{
+			{Name: "DOM/queue-flag-whole", Min: 5, Run: ruleQueueFlagWhole, Doc: "the drain of held-back events stops early only while a hold-back reason is set, so queued events are delivered, in order, once the gate opens"},
 			{Name: "DOM/event-target", Min: 1, Run: ruleEventTarget, Doc: "a resource event is applied to the resource it names"},
 			{Name: "TABLE/add-run", Min: 0, Run: ruleAddRun, Doc: "derived adds of one ascending loop move their index along"},
 			{Name: "DOM/ref-shapes", Min: 1, Run: ruleRefShapes, Doc: "the loading gate of a resource is opened by the release that first hands it over, not again for an already sent one (held-back events stay behind the event that delivers what they need)"},
@@ -230,9 +234,10 @@ func init() {
 
 	register(&Property{
 		ID: "C08", Title: "Direct subscription accounting; failed requests leave nothing behind",
-		Explanation: "Decides: on every continuation path of every function that takes a direct subscription the count is released exactly once on every failure and on every outcome of get-type handlers, kept exactly on the success of subscribe-type handlers, and never released when Subscribe itself failed (PAIR/direct-count); an unsubscribe removes counts only behind the test direct >= count with the same count (DOM/unsub-precond); the count parameter is validated as positive (DOM/count-param); direct++ only below the limit (DOM/sub-limit); revocation and delete remove all direct subscriptions (DOM/revoke); direct is written by addCount/removeCount only; params that carry no count unsubscribe once: a decoded-params path reaches UnsubscribeResource with the default 1 (DOM/unsub-precond). Not decided: numeric equality of the counter with the response history (it is the sum of the per-path facts). Added after seeding round 7: a connection registers a Subscription object under a resource id only on the not-found edge of the lookup of that id (DOM/one-sub-per-rid); the collector's mark pass keeps every node that is held or reached from a kept node (DOM/gc-mark). Added after seeding round 9: a request answered with success before any failure keeps its direct subscription (PAIR/direct-count). Added after seeding round 11: the unsubscribe count is decoded as an integer and reaches the handler unconverted, so a fractional count cannot pass the 'no more than held' test by truncation (DOM/count-integer).",
+		Explanation: "Decides: on every continuation path of every function that takes a direct subscription the count is released exactly once on every failure and on every outcome of get-type handlers, kept exactly on the success of subscribe-type handlers, and never released when Subscribe itself failed (PAIR/direct-count); an unsubscribe removes counts only behind the test direct >= count with the same count (DOM/unsub-precond); the count parameter is validated as positive (DOM/count-param); direct++ only below the limit (DOM/sub-limit); revocation and delete remove all direct subscriptions (DOM/revoke); direct is written by addCount/removeCount only; params that carry no count unsubscribe once: a decoded-params path reaches UnsubscribeResource with the default 1 (DOM/unsub-precond). Not decided: numeric equality of the counter with the response history (it is the sum of the per-path facts). Added after seeding round 7: a connection registers a Subscription object under a resource id only on the not-found edge of the lookup of that id (DOM/one-sub-per-rid); the collector's mark pass keeps every node that is held or reached from a kept node (DOM/gc-mark). Added after seeding round 9: a request answered with success before any failure keeps its direct subscription (PAIR/direct-count). Added after seeding round 11: the unsubscribe count is decoded as an integer and reaches the handler unconverted, so a fractional count cannot pass the 'no more than held' test by truncation (DOM/count-integer). Added after the mutation sweep: removeCount lowers counts only behind the any-holder test (DOM/remove-count-held); the direct count is lowered by the count asked for when that many are held — statically dead edges of the clamp do not count (DOM/unsub-precond).",
 		Assumptions: append([]string{"LIN (C07): every handler replies exactly once", "a task refused by a disposing connection needs no release (dispose releases everything)"}, baseAssumptions...),
 		Rules: []Rule{
+			{Name: "DOM/remove-count-held", Min: 3, Run: ruleRemoveCountHeld, Doc: "removeCount lowers a count only while the subscription has a holder (direct+indirect+indirectsent != 0)"},
 			{Name: "DOM/gc-after-release", Min: 1, Run: ruleGCAfterRelease, Doc: "a released reference reaches the collector on every path: nothing is left behind on a reference cycle"},
 			{Name: "DOM/count-integer", Min: 2, Run: ruleCountInteger, Doc: "the unsubscribe count is an integer as decoded: a fractional count is refused, not truncated"},
 			{Name: "DOM/gc-mark", Min: 1, Run: ruleGCMark, Doc: "the collector marks a held node, or one reached from a kept node, kept — also over an earlier deletion mark: a subscription shared with a kept parent is not disposed"},
@@ -321,9 +326,11 @@ func init() {
 
 	register(&Property{
 		ID: "C12", Title: "System reset re-fetches exactly the matching resources with a correct diff",
-		Explanation: "Decides the plumbing and protocol clauses only: a matching entry is re-fetched once, with get.<name> and its normalised query, unless a reset is already outstanding; the resetting flag is set before the request and cleared before the answer is processed, in both the throttled and the unthrottled twin; the base resource (unless it is a link) and every cached query variant are visited exactly once, for resources and for access (DOM/reset-protocol); derived events go through handleEvent, state events are dropped only while resetting (CONF/handle-event); invalid patterns match nothing at the recogniser level (TABLE/reject-set); only valid patterns are matched (DOM/valid-patterns); content is replaced copy-on-write (DOM/copy-on-write). NOT decided — the heart of the property: wildcard matching semantics for all names, that the model diff and the LCS edit script transform old into new with indexes in range, that unchanged content yields no event. Added after seeding round 8: TABLE/lcs-exhaustive (see C03) for the derived add/remove sequence of a re-fetched collection. Added after seeding round 11: the kind of an answer is decided by which member is present, never by its size, so a reset that empties a resource produces its remove / delete-action events (TABLE/kind-by-presence); a run of adds emitted by one ascending loop moves its index along (TABLE/add-run).  Added after seeding round 12: every path of ResourcePattern.Match that returns the comparison of the name with the pattern text has established that the pattern has no wildcard (TABLE/match-literal; one shape condition of the matcher, not its correctness). Added after seeding round 12: the marking of missing keys runs for every re-fetched model (DOM/diff-unconditional). Added after seeding round 13: DOM/invalidate (see C05/C06) also serves this property — a reset access pattern re-requests access with the cached verdict cleared.",
+		Explanation: "Decides the plumbing and protocol clauses only: a matching entry is re-fetched once, with get.<name> and its normalised query, unless a reset is already outstanding; the resetting flag is set before the request and cleared before the answer is processed, in both the throttled and the unthrottled twin; the base resource (unless it is a link) and every cached query variant are visited exactly once, for resources and for access (DOM/reset-protocol); derived events go through handleEvent, state events are dropped only while resetting (CONF/handle-event); invalid patterns match nothing at the recogniser level (TABLE/reject-set); only valid patterns are matched (DOM/valid-patterns); content is replaced copy-on-write (DOM/copy-on-write). NOT decided — the heart of the property: wildcard matching semantics for all names, that the model diff and the LCS edit script transform old into new with indexes in range, that unchanged content yields no event. Added after seeding round 8: TABLE/lcs-exhaustive (see C03) for the derived add/remove sequence of a re-fetched collection. Added after seeding round 11: the kind of an answer is decided by which member is present, never by its size, so a reset that empties a resource produces its remove / delete-action events (TABLE/kind-by-presence); a run of adds emitted by one ascending loop moves its index along (TABLE/add-run).  Added after seeding round 12: every path of ResourcePattern.Match that returns the comparison of the name with the pattern text has established that the pattern has no wildcard (TABLE/match-literal; one shape condition of the matcher, not its correctness). Added after seeding round 12: the marking of missing keys runs for every re-fetched model (DOM/diff-unconditional). Added after seeding round 13: DOM/invalidate (see C05/C06) also serves this property — a reset access pattern re-requests access with the cached verdict cleared. Added after the mutation sweep: handleResetAccess agrees with handleResetResource on every abstract path (TWIN/agree). Added after the mutation sweep: the model diff drops equal properties and only those; an empty diff builds no event (DOM/diff-drops-equal; Value.Equal itself is not decided).",
 		Assumptions: baseAssumptions,
 		Rules: []Rule{
+			{Name: "DOM/diff-drops-equal", Min: 3, Run: ruleDiffDropsEqual, Doc: "the model diff of a re-fetch drops a property exactly behind the lookup's ok and Value.Equal, and builds no event for an empty diff"},
+			{Name: "TWIN/agree", Min: 0, Run: ruleTwinAgree, Doc: "the resource and the access variant of a reset visit the same subscriptions of an entry: base unless it is a link, every query variant once"},
 			{Name: "DOM/invalidate", Min: 1, Run: ruleInvalidate, Doc: "the access re-check a reset asks for clears the cached verdict before it asks again"},
 			{Name: "DOM/diff-unconditional", Min: 1, Run: ruleDiffUnconditional, Doc: "every cached key missing from a re-fetched model is marked deleted, whatever the sizes of the two models"},
 			{Name: "TABLE/match-literal", Min: 1, Run: ruleMatchLiteral, Doc: "a wildcard pattern is never matched by comparing texts"},
